@@ -503,7 +503,7 @@ pub fn run_c09(ctx: &Ctx) -> i32 {
     stats.merge(par_cases(ctx, "long", ctx.tier.pick(6_000, 120_000), Duration::from_secs(ctx.tier.pick(40, 600)), |i, rng, st| {
         let n = rng.range(6, 40);
         let names = ["a", "b", "c", "d", "e", "f", "g", "h", "alpha", "beta", "getInterfaceVersion", "getInterfaceHash", "getTransactionName", "asBinder", "toString", "TRUE", "Interface", "A", "B", "Alpha", "ALPHA", "Beta", "tostring"];
-        let codes = ["0", "1", "01", "001", "7", "007", "4294967295", "4294967294", "16777215", "10", "010"];
+        let codes = ["0", "1", "01", "001", "7", "007", "4294967295", "4294967294", "16777215", "16777214", "16777213", "016777214", "10", "010", "2147483648"];
         let style = rng.below(3); // 0: mixed, 1: all coded, 2: none coded
         let mut s = String::from("package t; interface I { ");
         for k in 0..n {
